@@ -67,3 +67,16 @@ Definition nest_typed (w : world) (r : N) (k : bytes) (arr : bool) : world * res
 (* d = std::move(s): d receives s's content, s is left empty *)
 Definition doc_move (w : world) (d s : nat) : world * result :=
   step (fst (step w (ODocCopy d s))) (ODocClear s).
+
+(* dst[p1] = src[p2]  (MemberProxy / ElementProxy assigned from another proxy, or dst[p1].set(src[p2])): the destination
+   level is resolved or created first, then the source proxy is evaluated (an absent source is an unbound reference: the
+   destination becomes null) and copied *)
+Definition proxy_assign (w : world) (r1 : N) (p1 : pel) (r2 : N) (p2 : pel) : world * result :=
+  let '(w1, dst) := get_or_add_level w r1 p1 in
+  match dst with
+  | None => (w1, RBool false)
+  | Some d => match get_level w1 r2 p2 with
+              | Some s => step w1 (OAssign d s)
+              | None => step w1 (OSet d SNull)
+              end
+  end.
